@@ -569,6 +569,49 @@ func mdnsReportGuarded(repo string) bool {
 	return calls > 0 && calls == guardedCalls
 }
 
+// ---- mdns/avahi.go: design facts of the reconnect loop
+func avahiCfg(repo string) (respectsShutdown, reannounceCurrent bool) {
+	f := parse(repo, "mdns/avahi.go")
+	loop := funcDecl(f, "attemptReconnect")
+	if loop == nil {
+		return
+	}
+	// which function does the loop call to start the provider
+	callee := ""
+	ast.Inspect(loop.Body, func(x ast.Node) bool {
+		if c, ok := x.(*ast.CallExpr); ok {
+			if n := sel(c.Fun); n == "Start" || n == "start" {
+				callee = n
+			}
+		}
+		return true
+	})
+	if fd := funcDecl(f, callee); fd != nil {
+		// a guard on manualShutdown that returns, placed before manualShutdown is reset
+		for _, st := range fd.Body.List {
+			if as, ok := st.(*ast.AssignStmt); ok && len(as.Lhs) == 1 && sel(as.Lhs[0]) == "manualShutdown" {
+				break
+			}
+			if ifs, ok := st.(*ast.IfStmt); ok && mentions(ifs.Cond, "manualShutdown") {
+				for _, b := range ifs.Body.List {
+					if _, ok := b.(*ast.ReturnStmt); ok {
+						respectsShutdown = true
+					}
+				}
+			}
+		}
+	}
+	// the announcement is read from the provider inside the loop, not handed in as a parameter
+	captured := false
+	for _, p := range loop.Type.Params.List {
+		if mentions(p.Type, "mdnsServiceData") {
+			captured = true
+		}
+	}
+	reannounceCurrent = !captured && mentions(loop.Body, "mdnsServiceData")
+	return
+}
+
 func main() {
 	repo := flag.String("repo", "/repo", "repository root")
 	out := flag.String("out", "", "directory for the generated Lean files (default: print)")
@@ -670,6 +713,10 @@ func main() {
 	{
 		a, b, c, d, e := wsCfg(*repo)
 		files["WsFacts.lean"] = fmt.Sprintf("/- GENERATED by /verif/extract from /repo — do not edit. -/\nimport ShipVerif.Model.Ws\nnamespace ShipVerif.Generated\n\n/-- ws/websocket.go: design facts -/\ndef wsCfg : ShipVerif.Ws.Cfg := { pumpClosesQueue := %v, writeSelectsClose := %v, shutdownAlways := %v, reportIfFirst := %v, farewellInsideOnce := %v }\n\nend ShipVerif.Generated\n", a, b, c, d, e)
+	}
+	{
+		a, b := avahiCfg(*repo)
+		files["AvahiFacts.lean"] = fmt.Sprintf("/- GENERATED by /verif/extract from /repo — do not edit. -/\nimport ShipVerif.Model.Avahi\nnamespace ShipVerif.Generated\n\n/-- mdns/avahi.go: design facts of the reconnect loop -/\ndef avahiCfg : ShipVerif.Avahi.Cfg := { reconnectRespectsShutdown := %v, reannounceCurrent := %v }\n\nend ShipVerif.Generated\n", a, b)
 	}
 	files["AsyncFacts.lean"] = fmt.Sprintf("/- GENERATED by /verif/extract from /repo — do not edit. -/\nimport ShipVerif.Model.View\nnamespace ShipVerif.Generated\n\n/-- mdns/mdns.go: reports are delivered under a mutex and dropped when a newer snapshot was delivered -/\ndef mdnsReportCfg : ShipVerif.Async.Cfg := { guarded := %v }\n\nend ShipVerif.Generated\n", mdnsReportGuarded(*repo))
 	for name, text := range files {
